@@ -145,7 +145,20 @@ class MakeHeader(Contract):
         t0 = c.sym_int('t0', name='t0_ms')
         dt = c.sym_int('dt', lo=1, hi=65535, name='interval_us')
         c.assume(ge(t0, -32768), le(t0, 32767), lt(nZ, 2 ** 31))
-        samples = SArray((nZ,), lambda idx: mk_float(zreal(t0) + zreal(idx[0]) * zreal(dt) / 1000), 'float64')
+        if getattr(self, 'noisy_samples', False):
+            # S3b: the sample axis as floating point delivers it: t0 + k*dt/1000 up to a rounding error far below a microsecond
+            # (the property demands the axis "to within float rounding" for every whole-microsecond interval)
+            EPS = z3.Function('sample_rounding_error', z3.IntSort(), z3.RealSort())
+            bound = z3.RealVal('1/1000000000')
+
+            def sfn(idx):
+                e = EPS(zint(idx[0]))
+                # (the first sample is the whole-millisecond start time itself: exactly representable)
+                cur().assume_raw(z3.And(e >= -bound, e <= bound, EPS(z3.IntVal(0)) == 0))
+                return mk_float(zreal(t0) + zreal(idx[0]) * zreal(dt) / 1000 + e)
+            samples = SArray((nZ,), sfn, 'float64')
+        else:
+            samples = SArray((nZ,), lambda idx: mk_float(zreal(t0) + zreal(idx[0]) * zreal(dt) / 1000), 'float64')
         d = dict(samples=samples, bits_per_voxel=rate, blockshape=tuple(b), hw_info=mk_hw_info(c, prog), _nZ=nZ, _t0=t0, _dt=dt)
         if self.mode == '2d':
             nT = c.sym_int('nT', lo=2, name='n_traces')
@@ -251,6 +264,7 @@ class MakeHeader(Contract):
         c.ensure(mk_bool(tbl is a['hw_info'].table_bytes), 'table_at_980')
 
 
+fuc('conversion_utils.py::make_header', props=['C05'])(type('MakeHeader_noisy_samples', (MakeHeader,), dict(mode='3d', cfg=CFG_DEFAULT[3], noisy_samples=True, variant='3d,sample axis with float rounding error')))
 for _mode in ('3d', '2d', 'irregular', 'window'):
     _cfgs = ALL2 if _mode == '2d' else (ALL3[:3] if _mode == 'window' else ALL3)
     _cls = type('MakeHeader_' + _mode, (MakeHeader,), dict(mode=_mode))
@@ -292,7 +306,11 @@ class ParseCoordinates(Contract):
     sample interval in microseconds for files newer than 0.1.6 (milliseconds before)"""
     may_raise = ()
 
+    float_noise = False
+
     def inputs(self, c):
+        if self.float_noise:
+            c.ghost['float_noise'] = True         # S3b: float quotients inside np.arange are off by a rounding error
         rd = mk_parsing_reader(c, c.ex.prog)
         return dict(self=rd)
 
@@ -350,3 +368,6 @@ class ParseDataSizes(Contract):
 
     def post(self, c, a, result):
         c.ensure(And(eq(result[0], hdr_u32(56)), eq(result[1], hdr_u32(60)), eq(result[2], hdr_u32(64))), 'words_56_60_64')
+
+
+fuc('read.py::SgzReader._parse_coordinates', props=['C05'])(type('ParseCoordinatesFloatNoise', (ParseCoordinates,), dict(float_noise=True, variant='float rounding inside np.arange (S3b)')))
